@@ -24,6 +24,9 @@ func TestVerifC21Bench(t *testing.T) {
 	if r.Replay() != nil {
 		return
 	}
+	if shard, _ := r.Shard(); shard != 0 {
+		return // the generated-id menu is small: shard 0 runs all of it
+	}
 	// generated channel ids: every (run id, profile, channel index, count) of the menu
 	e := r.NewEnum("generated-channel-ids")
 	counts := []uint16{1, 2, 3, 16, 255, 256, 1000}
